@@ -417,6 +417,8 @@ impl Ctx {
                             desc: format!("{}: evaluation #{} of the call history [i, j, i] on one fresh thread panicked in the subject at {}: {}", sub, pos + 1, loc, msg),
                             detail: json!({"case_i": describe(i), "case_j": describe(j)}),
                         });
+                    } else if loc.contains("src/zgroup.rs") && msg.starts_with("not implemented") {
+                        // see sweep_main: the stand-in group is unsupported by the code under test; already reported there
                     } else {
                         g.machinery.push(format!("harness panic in {} history ({}, {}) at {}: {}", sub, i, j, loc, msg));
                     }
@@ -493,12 +495,13 @@ impl Ctx {
             classes: BTreeMap<&'static str, u64>,
             viols: Vec<Violation>,
             mach: Vec<String>,
+            unsupported: u64,
         }
         let locals: Vec<Local> = std::thread::scope(|s| {
             let mut hs = Vec::new();
             for _ in 0..self.threads.min(n.max(1) as usize) {
                 hs.push(s.spawn(|| {
-                    let mut l = Local { evals: 0, nontrivial: 0, classes: BTreeMap::new(), viols: vec![], mach: vec![] };
+                    let mut l = Local { evals: 0, nontrivial: 0, classes: BTreeMap::new(), viols: vec![], mach: vec![], unsupported: 0 };
                     loop {
                         let lo = next.fetch_add(chunk, Ordering::Relaxed);
                         if lo >= n {
@@ -535,6 +538,11 @@ impl Ctx {
                                                 detail: Value::Null,
                                             });
                                         }
+                                    } else if loc.contains("src/zgroup.rs") && msg.starts_with("not implemented") {
+                                        // the exponent-tracking stand-in group was asked for something it does not have
+                                        // (coordinates, tables): the generic code under test changed what it needs from a group.
+                                        // Not a verdict and not a harness failure: this part is skipped and said so.
+                                        l.unsupported += 1;
                                     } else if l.mach.len() < 4 {
                                         l.mach.push(format!("harness panic in {} case {} at {}: {}", sub, i, loc, msg));
                                     }
@@ -553,6 +561,7 @@ impl Ctx {
         }
         let mut viols = vec![];
         let mut machs: Vec<String> = vec![];
+        let mut unsupported = 0u64;
         {
             let st = g.subs.entry(sub.to_string()).or_default();
             st.space += n;
@@ -565,6 +574,7 @@ impl Ctx {
                 }
                 viols.extend(l.viols);
                 machs.extend(l.mach);
+                unsupported += l.unsupported;
             }
             if n > 0 && st.samples.len() < 4 {
                 for &i in &[0, n / 2, n - 1] {
@@ -579,6 +589,10 @@ impl Ctx {
             }
         }
         g.machinery.extend(machs);
+        if unsupported > 0 {
+            println!("DEGRADED property={} {}: {} cases skipped: the exponent-tracking stand-in group does not offer what the generic code now asks of it (coordinates / tables)", self.id, sub, unsupported);
+            g.caps_hit.push(format!("{}: {} cases skipped (exponent-group stand-in unsupported by the code under test)", sub, unsupported));
+        }
         viols.sort_by_key(|v| v.index);
         for mut v in viols.into_iter().take(3) {
             if v.detail.is_null() {
